@@ -158,7 +158,7 @@ pub struct RunOutput { pub failed: bool, pub x: u8 }
         final(w).argmap_log == old(w).argmap_log, final(w).result_stored == old(w).result_stored, final(w).wiped == old(w).wiped, final(w).pointer_saved == old(w).pointer_saved, final(w).recorded_id == old(w).recorded_id,
 { unimplemented!() }
 pub uninterp spec fn slot_of(run_path: Seq<char>) -> int;
-// ASSUMED (repo function): writes the compressed result document into the slot directory
+// ASSUMED here (the file-level contract of store_run_output is proved in unit tracking): writes the compressed result document into the slot directory
 #[verifier::external_body] fn store_run_output(run_output: &RunOutput, run_path: &path::Path, Tracked(w): Tracked<&mut World>) -> (r: Result<(), MonorailError>)
     requires old(w).executed, old(w).wiped.contains(slot_of(run_path@)),
     ensures r is Ok ==> final(w).result_stored == old(w).result_stored.insert(slot_of(run_path@)), r is Err ==> final(w).result_stored == old(w).result_stored,
